@@ -533,7 +533,7 @@ def c_raw_request(ctx):
     ctx.floor("C01.c.raw-request", GEN1, "reads of the raw request on the Colang-1 prompt path", n_sites, 1)
 
 
-def b_param_binding(ctx):
+def b_param_binding(ctx, rule="C01.b.param-binding"):
     """Each configured rail runs with its own configured parameters: parameters parsed from a
     parameterised flow id are stored unconditionally before the subflow starts."""
     rel = "nemoguardrails/colang/v1_0/runtime/flows.py"
@@ -541,7 +541,7 @@ def b_param_binding(ctx):
     if fn is None:
         raise AnalysisError("_call_subflow not found", anchor=rel + "::_call_subflow")
     gets = [a for a in walk_no_nested(fn) if isinstance(a, ast.Assign) and isinstance(a.value, ast.Call) and src(a.value.func) == "_get_flow_params" and isinstance(a.targets[0], ast.Name)]
-    ctx.floor("C01.b.param-binding", rel, "parameter extraction in _call_subflow", len(gets), 1)
+    ctx.floor(rule, rel, "parameter extraction in _call_subflow", len(gets), 1)
     for g in gets:
         P = g.targets[0].id
         blk = getattr(g, "_parent", None)
@@ -556,6 +556,6 @@ def b_param_binding(ctx):
                 ok = True
         cfg = CFG(fn)
         slide = [n for n in cfg.nodes if n.ast is not None and any(isinstance(c, ast.Call) and src(c.func) == "_slide_with_subflows" for c in walk_no_nested(n.ast))]
-        ctx.check("C01.b.param-binding", rel, "_call_subflow", first_line(g), ok and bool(slide),
+        ctx.check(rule, rel, "_call_subflow", first_line(g), ok and bool(slide),
                   "all parameters of a parameterised rail id (e.g. `content safety check input $model=a`) are written to the context unconditionally before the rail flow starts" if ok else
                   "parameters of a parameterised rail id are not written unconditionally: a second rail `... $model=b` runs with the first rail's value, so the configured rail list is not what runs", line=g.lineno)
